@@ -61,6 +61,12 @@ theorem canonAny_isNone : ∀ (fs : List FieldDecl) (v : PyVal), (canonAny fs v)
     · exact canonV_isNone f v
 end
 
+theorem anyOfMulti_A (x : FieldDecl) : anyOfMulti [x, .noneF] = false := by
+  cases h : isNoneF x <;> simp [anyOfMulti, nonNoneCount, List.filter, h, isNoneF_noneF]
+
+theorem anyOfMulti_B (y : FieldDecl) : anyOfMulti [.noneF, y] = false := by
+  cases h : isNoneF y <;> simp [anyOfMulti, nonNoneCount, List.filter, h, isNoneF_noneF]
+
 theorem fserLast_A {JK : List String} (x : FieldDecl) (v : PyVal) (hx : isNoneF x = false) :
     fserLast noMappers [] JK [x, .noneF] v = fser noMappers [] JK x v := by
   simp only [fserLast, List.all_cons, List.all_nil, isNoneF_noneF, hx, Bool.and_self, Bool.not_false, if_true]
@@ -349,7 +355,7 @@ theorem fopt_equiv : ∀ (fs : List FieldDecl) (v : PyVal),
       rcases fwfAny_pair O x .noneF v hw with ⟨_, hwx, hsh, j, hser⟩ | ⟨h, _⟩
       · have ih := fser_equiv x v hsx hwx
         refine ⟨?_, fun _ j' hj => ?_⟩
-        · simp only [fser, hn, Bool.false_eq_true, if_false, fserLast_A x v hx, canonV, canonAny_A x v hx, ser,
+        · simp only [fser, hn, Bool.false_eq_true, if_false, anyOfMulti_A, fserLast_A x v hx, canonV, canonAny_A x v hx, ser,
             serFirst_A O x _ j hsh hser, ih.1, hser]
         · simp only [canonV, canonAny_A x v hx, ser, serFirst_A O x _ j hsh hser] at hj
           cases hj
@@ -362,7 +368,7 @@ theorem fopt_equiv : ∀ (fs : List FieldDecl) (v : PyVal),
       · rw [isNoneF_noneF] at h; cases h
       · have ih := fser_equiv y v hsy hwy
         refine ⟨?_, fun _ j' hj => ?_⟩
-        · simp only [fser, hn, Bool.false_eq_true, if_false, fserLast_B y v hy, canonV, canonAny_B y v hy, ser,
+        · simp only [fser, hn, Bool.false_eq_true, if_false, anyOfMulti_B, fserLast_B y v hy, canonV, canonAny_B y v hy, ser,
             serFirst_B O y _ j (hcanN y) hsh hser, ih.1, hser]
         · simp only [canonV, canonAny_B y v hy, ser, serFirst_B O y _ j (hcanN y) hsh hser] at hj
           cases hj
